@@ -374,7 +374,7 @@ pub struct Suites {
 
 impl Suites {
     pub fn new(n: usize, tier: Tier) -> Suites {
-        let s = if n >= 4 { 5 } else { 1 };
+        let s = if n >= 5 { 41 } else if n >= 4 { 5 } else { 1 };
         let big = if tier == Tier::Quick { 4 } else { 1 };
         Suites {
             real: Suite::new(n, &RealSemiring::alphabet(), s),
@@ -511,7 +511,7 @@ fn run_rep(rep: &Rep, n: usize, ctx: &Ctx, fstep: usize) -> Report {
                 }
                 prod = nx;
             }
-            for w in prod.into_iter().step_by(if n >= 4 { 7 } else { 1 }) {
+            for w in prod.into_iter().step_by(if n >= 5 { 37 } else if n >= 4 { 7 } else { 1 }) {
                 let m: HashMap<VarLabel, (RealSemiring, RealSemiring)> = w.iter().enumerate().map(|(v, &(l, h))| (VarLabel::new(v as u64), (RealSemiring(l), RealSemiring(h)))).collect();
                 arb.push((w, WmcParams::new(m)));
             }
@@ -629,22 +629,34 @@ pub fn run(ctx: &Ctx) -> Report {
         "every Boolean function of n variables (n = 3; n = 4 in thorough; n = 1, 2 always) in every representation (BDD in every order, SDD in every vtree, top-down decision-DNNF in every order x both stores; both polarities of every pointer, nodes shared inside one builder) x 10 semiring instances (real, 4 finite fields incl. a ~2^96 prime, Boolean, expected utility, complex, rational, polynomial) x the full product of a 3-4 element alphabet of weights with low + high = one; plus BDDs with unnormalised integer weights against the depends-on recursion; plus evaluate() on every assignment; oracle = the harness's own exact arithmetic; distinct = (representation, function, polarity); non-trivial = non-constant function",
     );
     let mut items: Vec<(Rep, usize, usize)> = Vec::new();
-    let ns: Vec<(usize, usize)> = match ctx.tier {
-        Tier::Quick => vec![(1, 1), (2, 1), (3, 1)],
-        Tier::Thorough => vec![(1, 1), (2, 1), (3, 1), (4, 1)],
-    };
-    for (n, step) in ns {
-        // n = 4 (thorough): every 8th function per BDD order, every 32nd per vtree (120 vtrees)
-        let step = if n == 4 { 8 } else { step };
+    for n in 1..=4usize {
+        // n = 4: a stride over the 65 536 functions (every 8th per BDD order and every 32nd per
+        // vtree in thorough; every 64th / 512th in quick)
+        let (bstep, sstep) = if n == 4 { (ctx.tier.pick(64, 8), ctx.tier.pick(512, 32)) } else { (1, 1) };
         for o in permutations(n) {
-            items.push((Rep::Bdd(o.clone()), n, step));
+            items.push((Rep::Bdd(o.clone()), n, bstep));
             if n <= 3 {
                 items.push((Rep::TopDown(o.clone(), false), n, if ctx.tier == Tier::Quick { 5 } else { 1 }));
                 items.push((Rep::TopDown(o, true), n, if ctx.tier == Tier::Quick { 5 } else { 1 }));
             }
         }
         for v in all_vtrees(n) {
-            items.push((Rep::Sdd(v), n, if n == 4 { 32 } else { step }));
+            items.push((Rep::Sdd(v), n, sstep));
+        }
+    }
+    // n = 5: an arithmetic progression through the 2^32 truth tables (about 100 functions per
+    // representation in quick, 600 in thorough) on vtrees whose labels and positions disagree
+    // (every shape x rotated / shuffled / identity / reversed leaf order) and three BDD orders
+    {
+        let step5: usize = ctx.tier.pick(44_278_013, 7_158_271);
+        let leaf_orders: Vec<[usize; 5]> = if ctx.tier == Tier::Quick { vec![[4, 0, 1, 2, 3], [2, 4, 0, 3, 1]] } else { vec![[4, 0, 1, 2, 3], [2, 4, 0, 3, 1], [0, 1, 2, 3, 4], [4, 3, 2, 1, 0]] };
+        for lo in leaf_orders.iter() {
+            for v in vtrees_over(lo) {
+                items.push((Rep::Sdd(v), 5, step5));
+            }
+        }
+        for o in [vec![0usize, 1, 2, 3, 4], vec![4, 3, 2, 1, 0], vec![2, 4, 0, 3, 1]] {
+            items.push((Rep::Bdd(o), 5, step5));
         }
     }
     // longest first for a better parallel schedule
@@ -652,7 +664,7 @@ pub fn run(ctx: &Ctx) -> Report {
     let r = par_run(ctx, &items, |_, (rp, n, step)| run_rep(rp, *n, ctx, *step));
     rep.merge(r);
     rep.distinct_nontrivial = rep.transitions;
-    rep.bound("functions", json!(match ctx.tier { Tier::Quick => "all of F(1), F(2), F(3)", Tier::Thorough => "all of F(1..3); every 8th function of F(4) for the 24 BDD orders, every 32nd for the 120 SDD vtrees" }));
+    rep.bound("functions", json!(match ctx.tier { Tier::Quick => "all of F(1), F(2), F(3); every 64th function of F(4) for the 24 BDD orders, every 512th for the 120 SDD vtrees; about 100 functions of F(5) on 28 shuffled vtrees and 3 orders", Tier::Thorough => "all of F(1..3); every 8th function of F(4) for the 24 BDD orders, every 32nd for the 120 SDD vtrees; about 600 functions of F(5) on 56 vtrees and 3 orders" }));
     rep.bound("semirings", json!(["RealSemiring", "FiniteField<7>", "FiniteField<U32_TINY>", "FiniteField<U64_LARGEST>", "FiniteField<U128_LARGE_1>", "FiniteField<2^127-1>", "BooleanSemiring", "ExpectedUtility", "Complex", "RationalSemiring(0/1 weights)", "Polynomial<RealSemiring>"]));
     rep.sample(json!({"rep": {"sdd_vtree": "((0 2) 1)"}, "function": "0x96", "semiring": "Polynomial<RealSemiring>", "weights": "x_i -> (1 - x, x)"}));
     rep.assumptions.push("weights are drawn from alphabets on which f64 arithmetic is exact; polynomial results are compared coefficient-wise (the len field is a representation detail)".into());
